@@ -113,6 +113,21 @@ def gsc_threshold_probe(spec, tree):
     return None
 
 
+class Extended:
+    """a stop condition the user installs on the tree object itself to run a tree further than its configuration
+    said (what test_reload does with `tree._gsc = ...`): never true within the horizon of these runs"""
+
+    def __init__(self, inner, horizon):
+        self.inner = inner
+        self.horizon = horizon
+
+    def __call__(self, tree):
+        return bool(tree.metaepoch_count >= self.horizon)
+
+    def __str__(self):
+        return f"Extended({self.inner})"
+
+
 def one_config(spec, sl, kind):
     import pyhms.tree as T
     from pyhms.config import TreeConfig
@@ -124,6 +139,12 @@ def one_config(spec, sl, kind):
         np.random.seed(spec["seed"] % (2**32))
         random.seed(spec["seed"])
     tree = T.DemeTree(TreeConfig(o["levels"], o["gsc"], o["sm"], options=opts, config_class_to_deme_class=o["custom"]))
+    # one configuration in four is run further than configured through a stop condition installed on the tree
+    # object: a snapshot is a snapshot of the TREE, not of its configuration
+    extended = spec["seed"] % 4 == 1
+    if extended:
+        tree._gsc = Extended(tree._gsc, spec["max_steps"] + 50)
+        sl.count("stop-condition-installed-on-the-tree-object")
     mx = spec["maximize"]
     fd, fn = tempfile.mkstemp(suffix=".pkl")
     os.close(fd)
@@ -180,10 +201,12 @@ def one_config(spec, sl, kind):
                 viol("C19/loaded-summary-differs", f"boundary {k}: summary of the loaded tree differs", k)
             elif bool(loaded._gsc(loaded)) != bool(tree._gsc(tree)):
                 viol("C19/loaded-gsc-differs", f"boundary {k}: stop-condition verdict differs on the loaded tree", k)
-            pr = gsc_threshold_probe(spec, loaded)
+            if extended and not isinstance(loaded._gsc, Extended):
+                viol("C19/loaded-gsc-differs", f"boundary {k}: the live tree's stop condition is {tree._gsc}, the restored tree's is {loaded._gsc}", k)
+            pr = None if extended else gsc_threshold_probe(spec, loaded)
             if pr:
                 viol("C19/loaded-gsc-not-its-definition", f"boundary {k}: restored tree — {pr}", k)
-            want = gsc_oracle(spec, loaded)
+            want = None if extended else gsc_oracle(spec, loaded)
             if want is not None and bool(loaded._gsc(loaded)) != bool(want):
                 viol("C19/loaded-gsc-not-its-definition", f"boundary {k}: on the restored tree {spec['gsc']['kind']} answers {bool(loaded._gsc(loaded))}, its definition on the restored state gives {bool(want)}", k)
             # continuation of the loaded tree (every third boundary): invariants relative to restored counters
@@ -204,7 +227,7 @@ def one_config(spec, sl, kind):
                     if loaded._gsc(loaded):
                         break
                     loaded.run_step()
-                    want = gsc_oracle(spec, loaded)
+                    want = None if extended else gsc_oracle(spec, loaded)
                     if want is not None and bool(loaded._gsc(loaded)) != bool(want):
                         viol("C19/loaded-gsc-not-its-definition", f"restored at boundary {k} and run further: {spec['gsc']['kind']} answers {bool(loaded._gsc(loaded))}, its definition on the tree's state gives {bool(want)}", k)
                     s2 = R.snap_tree(loaded, order + [d.id for _, d in loaded.all_demes if d.id not in order])
